@@ -2,6 +2,7 @@
 #include "rkcommon/utility/Optional.h"
 #include "rkcommon/utility/Any.h"
 #include <string>
+#include <type_traits>
 #include <utility>
 #include <vector>
 
@@ -118,4 +119,10 @@ namespace rkverif {
     Optional<int> intLvalue(li);
     Optional<int> intRvalue(std::move(li));
   }
+
+  // R-C09-15: an Optional never converts implicitly to a payload-like type (its `operator bool` is explicit): with an implicit conversion
+  // the forwarding `operator=(U &&)` accepts an Optional on the right-hand side and stores bool(rhs) in the payload
+  constexpr bool optional_int_converts_to_int       = std::is_convertible<Optional<int> &, int>::value;
+  constexpr bool optional_string_converts_to_bool   = std::is_convertible<Optional<std::string> &, bool>::value;
+  constexpr bool optional_double_converts_to_double = std::is_convertible<const Optional<double> &, double>::value;
 }  // namespace rkverif
